@@ -5,7 +5,7 @@ import FparserModel.One
 /-! driver commands of the Norm / One models
 
 * `lexnorm  text`          → one line: the normalised token list of `text`
-* `lex      text`          → the raw token list (before `fmtx`/`norm`)
+* `lexf     text`          → the raw token list (before `fmtx`/`norm`)
 * `normeq   text1 text2`   → `eq` | `ne`, index, token1, token2
 * `nest1    lines`         → `ok`, S-expression, shared-flag, eof-closed flag
                              | `err`, `nopattern`, line id, block class name
@@ -57,7 +57,7 @@ def showOptTok : Option Tok → String
 def handle (cmd : String) (args : List String) : Option String :=
   match cmd, args with
   | "lexnorm", [t] => some (ok [String.ofList (showToks (canon (decL t)))])
-  | "lex", [t] => some (ok [String.ofList (showToks (lexF (decL t)))])
+  | "lexf", [t] => some (ok [String.ofList (showToks (lexF (decL t)))])
   | "normeq", [a, b] =>
     match firstDiff (canon (decL a)) (canon (decL b)) 0 with
     | none => some (ok ["eq"])
